@@ -1,6 +1,7 @@
-\* C10: the whole product 4^4 levels x 8x8 method-list shapes x 4x4 cipher lists x command present / auth-only,
-\* honest wire, no spontaneous aborts.  524 288 configurations.
-SPECIFICATION Spec
+\* C10: the whole product 4^4 levels x 8x8 method-list shapes x 4x4 cipher lists x command present / auth-only
+\* (524 288 configurations), honest wire, no spontaneous aborts, EVERY interleaving of the two ends.
+\* Run as parallel TLC processes, one per client authentication level (environment C10_CAUTH; C10_SAUTH="*").
+SPECIFICATION GenSpec
 CONSTANTS
   CAuth = {"REQUIRED", "PREFERRED", "OPTIONAL", "NEVER"}
   SAuth = {"REQUIRED", "PREFERRED", "OPTIONAL", "NEVER"}
@@ -16,5 +17,6 @@ CONSTANTS
   RelayBudget = 0
   AllowAbort = FALSE
   Bug = {}
+  GenMode = "mc"
 INVARIANTS TypeOK FailsExactlyWhen DenialIsExplicit BothAgree FollowsTable CanTalkBothWays
 CHECK_DEADLOCK FALSE
